@@ -72,6 +72,17 @@ func runC13(c *core.Ctx) {
 				}
 			}
 		}
+		if r.Intn(4) == 0 && len(book) >= 1 {
+			// a heading whose name begins with the comment character (written in quotes): a recipe like any other
+			// in the exports; sometimes it refers to another recipe
+			hash := gen.Recipe{Name: "#1 \"combo\", large", Ents: []gen.Ent{{Name: basics[0], Val: gen.N("180")}, {Name: basics[2], Val: gen.N("75")}}}
+			if r.Intn(2) == 0 && depth <= 8 {
+				hash.Ents = append(hash.Ents, gen.Ent{Name: recipes[0], Val: gen.N("2")})
+			}
+			at := 1 + r.Intn(len(book))
+			book = append(book[:at:at], append(gen.Book{hash}, book[at:]...)...)
+			c.Count("books_with_a_quoted_heading_that_begins_with_the_comment_character", 1)
+		}
 		foods := append(append(append([]string{}, recipes...), basics...), unknown...)
 		log := gen.RandomLog(r, gen.LogOpts{Days: 1 + r.Intn(5), Foods: foods, Exact: false, EmptyDays: true})
 		for di := range log {
@@ -105,6 +116,10 @@ func runC13(c *core.Ctx) {
 				args = append([]string{"--config", "odd.conf"}, args...)
 				odd = true
 				c.Count("runs_under_a_config_file_with_unknown_entries", 1)
+			}
+			if i%7 == 2 {
+				// the switch that would drop the book, spelled with an explicit false value: nothing changes
+				args = append([]string{[]string{"--no-database=false", "--no-database=0"}[i%2]}, args...)
 			}
 			res := srv.App1(args, nil)
 			c.Eval(1)
